@@ -40,7 +40,17 @@ def gen_c16(rng, tier):
         else:
             P, p_us = _nice_seconds(rng, dyadic, 1000, 250000)
         ops.append(["adv", rng.choice([0, 1, 3, 17]) * (GRID_US if dyadic else 999)])
-        ops.append(["create", P, rng.random() < 0.5])
+        r0 = rng.random()
+        if r0 < 0.25:
+            # built ahead of time, entered later: the grid still starts at the creation instant
+            ops.append(["create", P, False])
+            gap = rng.choice([0, p_us - 1, p_us, p_us + 1, 2 * p_us + p_us // 2, rng.randint(0, 3 * p_us)])
+            ops.append(["body", int((gap // GRID_US) * GRID_US if dyadic else gap)])
+            ops.append(["enter"])
+        else:
+            ops.append(["create", P, r0 < 0.6])
+        if len(ops) > 6 and rng.random() < 0.3:
+            ops.append(["stale_wait"])      # somebody still calls wait() on the delay that was released before
         style = rng.choice(["short", "mixed", "overrun", "exact"])
         for _ in range(rng.choice([2, 5, 10, 25] if tier == "quick" else [3, 10, 30, 60])):
             r = rng.random()
@@ -57,6 +67,8 @@ def gen_c16(rng, tier):
             if rng.random() < 0.1:
                 late = rng.choice([1, 50, p_us // 2, 2 * p_us]) if not dyadic else rng.choice([1, 2]) * GRID_US
             ops.append(["wait", int(late)])
+            if rng.random() < 0.03:
+                ops.append(["stale_wait"])
         ops.append(["free", rng.choice(["free", "exit", "free_twice"])])
         for _ in range(rng.choice([0, 1, 3])):
             ops.append(["body", rng.randint(0, 2 * p_us)])
@@ -72,6 +84,9 @@ def gen_c19(rng, tier):
     period, period_us = _nice_seconds(rng, dyadic, 1000, 2_000_000)
     if kind != "watchdog" and rng.random() < 0.06:
         period, period_us = rng.choice([0, 0.0]), 0        # a legal degenerate period: nothing is held back
+    elif kind != "watchdog" and not dyadic and rng.random() < 0.2:
+        period = rng.choice([1 / 3, 1 / 60, 2 / 3, 0.1 + 3e-7, 1 / 7])      # not a whole number of microseconds
+        period_us = int(period * 1e6)
     cfg = {"kind": kind, "dyadic": dyadic, "period": period, "period_us": period_us,
            "boot_us": rng.choice([0, 0, 1, 64, 64000]) * g if dyadic else rng.choice([0, 0, 17, 999_999, 10**7])}
     ops = []
@@ -81,7 +96,7 @@ def gen_c19(rng, tier):
         if r < 0.1:
             return 0
         if r < 0.45:
-            return rng.choice([period_us, period_us, period_us + g, max(0, period_us - g), 2 * period_us])
+            return rng.choice([period_us, period_us, period_us + g, max(0, period_us - g), 2 * period_us, period_us + 2 * g])
         if r < 0.8:
             step = rng.choice([20000, 20000, 5000]) if not dyadic else rng.choice([1, 2]) * GRID_US
             return step
@@ -232,6 +247,7 @@ def _exec_c16(plan, world, R):
 
     hal.initializeNotifier, hal.cleanNotifier = init_seam, clean_seam
     nd = None
+    old = None
     try:
         t0 = p = k = None
         freed = True
@@ -242,6 +258,31 @@ def _exec_c16(plan, world, R):
             if kind == "adv" or kind == "body":
                 world.advance(op[1])
                 R.shape.append((kind,))
+            elif kind == "enter":
+                if nd is None or freed:
+                    continue
+                t_before, calls_before = world.now_us(), seam["calls"]
+                try:
+                    if nd.__enter__() is not nd:
+                        R.fail("with_block", idx, op, "__enter__ did not return the delay object")
+                except Exception as e:
+                    R.fail("exception", idx, op, f"{type(e).__name__}: {e}")
+                if world.now_us() != t_before or seam["calls"] != calls_before:
+                    R.fail("enter_waited", idx, op, "entering the with-block waited or moved the clock")
+                R.probe("entered_later")
+                R.shape.append(("enter",))
+            elif kind == "stale_wait":
+                if old is None:
+                    continue
+                t_before, calls_before = world.now_us(), seam["calls"]
+                try:
+                    old.wait()
+                except Exception as e:
+                    R.fail("exception", idx, op, f"{type(e).__name__}: {e}")
+                if world.now_us() != t_before or seam["calls"] != calls_before:
+                    R.fail("wait_after_free", idx, op, "wait() on a released NotifierDelay waited on a notifier or moved time (a newer delay is alive)")
+                R.probe("stale_wait_on_released_instance")
+                R.shape.append(("stale_wait",))
             elif kind == "create":
                 if nd is not None and not freed:
                     # (shrunk plans) one NotifierDelay is alive at a time: release the previous one first
@@ -252,6 +293,7 @@ def _exec_c16(plan, world, R):
                     freed = True
                 n_before = hs.getNumNotifiers()
                 t0 = world.now_us()
+                old = nd              # keep the released one referenced
                 try:
                     nd = NotifierDelay(op[1])
                     if op[2]:
